@@ -17,13 +17,16 @@ var otrFragSizes = []int{0, 0, 17, 18, 19, 20, 21, 25, 40, 60, 100, 256, 1000, 1
 func TestC47(t *testing.T) {
 	m := mon.New(t, "C47")
 	defer m.Done()
-	m.Rule("streams: 'conv' = PRNG-scripted conversation of two otr.Conversation objects over a harness bus (start ∈ {query to A, query to B, simultaneous, embedded query}; FragmentSize per side ∈ {0,17,18,19,20,21,25,40,60,100,256,1000,100000} (≤ 18 = fragmentation off); ops: send (content classes empty/short/random/padding-boundary/whitespace-tag/query-like/utf8/large), duplicate data message (now or delayed), drop data message, drop/duplicate one fragment, mutate-then-original, SMP with equal/unequal secrets with/without question in both directions, re-handshake, End + restart) judged by the model {both encrypted after AKE with equal SSID and the peer's real key; every Send(m) is received as exactly m once; duplicates and mutants deliver nothing; SMPComplete on both sides iff secrets equal else SMPFailed on both}; 'data-mutation' = every byte of every encoded data-message class (text, with revealed MAC keys, SMP1..4, disconnect) mutated before base64 and every character of the base64 text (rejection judged per wire region; the unauthenticated revealed-MAC-keys field may be accepted but then the plaintext must be unchanged) followed by the original (must still be accepted); 'ake-mutation' = byte mutations of DH-commit/DH-key/reveal-sig/sig messages (panic-freedom; authentication consistency counted); 'smp-degenerate' = unequal secrets where one side's entropy source returns zeros for the SMP exponents (initiator/responder × first exponent/all exponents): never SMPComplete; 'smp-chaos' = SMP restarts/crossings/aborts (panic-freedom; never SMPComplete on unequal secrets); 'smp-hostile-tlv' = correctly MACed data messages carrying hostile SMP TLVs (counts 0..2^32-1, MPIs 0/1/p-1/p/huge/truncated, questions without NUL, unknown TLV types) sent through the verif hook otr.VerifSendTLV against an honest side in each SMP state (no panic, no plaintext, no SMPComplete); 'hostile' = grammar-generated inputs (well-framed OTR messages with hostile fields, fragments with k>n / n=0 / huge indices, query variants, random ?OTR:/?OTR, strings) against conversations in every state (no panic, no encrypted plaintext accepted); 'nul' = messages with an embedded NUL; 'frag18' = FragmentSize 18 (the documented minimum: every API call that encodes a message must work, unfragmented). distinct key = stream|op|content class|fragment sizes|outcome")
+	m.Rule("streams: 'conv' = PRNG-scripted conversation of two otr.Conversation objects over a harness bus (start ∈ {query to A, query to B, simultaneous, embedded query}; FragmentSize per side ∈ {0,17,18,19,20,21,25,40,60,100,256,1000,100000} (≤ 18 = fragmentation off); ops: send (content classes empty/short/random/padding-boundary/whitespace-tag/query-like/utf8/large), duplicate data message (now or delayed), drop data message, drop/duplicate one fragment, mutate-then-original, SMP with equal/unequal secrets with/without question in both directions, re-handshake, End + restart) judged by the model {both encrypted after AKE with equal SSID and the peer's real key; every Send(m) is received as exactly m once; duplicates and mutants deliver nothing; SMPComplete on both sides iff secrets equal else SMPFailed on both}; 'crossed' = both sides Send 1..3 messages before either Receives, delivery in every interleaving that keeps each direction FIFO, then follow-ups from both sides, over several key rotations with SMP runs and re-AKEs in between (every genuine message delivered unchanged; key genuine-message-rejected:crossed:<pattern>); 'data-mutation' = every byte of every encoded data-message class (text, with revealed MAC keys, SMP1..4, disconnect) mutated before base64 and every character of the base64 text (rejection judged per wire region; the unauthenticated revealed-MAC-keys field may be accepted but then the plaintext must be unchanged) followed by the original (must still be accepted); 'ake-mutation' = byte mutations of DH-commit/DH-key/reveal-sig/sig messages (panic-freedom; authentication consistency counted); 'smp-degenerate' = unequal secrets where one side's entropy source returns zeros for the SMP exponents (initiator/responder × first exponent/all exponents): never SMPComplete; 'smp-chaos' = SMP restarts/crossings/aborts (panic-freedom; never SMPComplete on unequal secrets); 'smp-hostile-tlv' = correctly MACed data messages carrying hostile SMP TLVs (counts 0..2^32-1, MPIs 0/1/p-1/p/huge/truncated, questions without NUL, unknown TLV types) sent through the verif hook otr.VerifSendTLV against an honest side in each SMP state (no panic, no plaintext, no SMPComplete); 'hostile' = grammar-generated inputs (well-framed OTR messages with hostile fields, fragments with k>n / n=0 / huge indices, query variants, random ?OTR:/?OTR, strings) against conversations in every state (no panic, no encrypted plaintext accepted); 'nul' = messages with an embedded NUL; 'frag18' = FragmentSize 18 (the documented minimum: every API call that encodes a message must work, unfragmented). distinct key = stream|op|content class|fragment sizes|outcome")
 	m.Assume("no second OTR implementation in the image: only self-interoperation is observed; DSA keys are fixed embedded 1024-bit test keys; Conversation.Rand is a seeded PRNG (dsa.Sign may consume one byte more or less, so replays reproduce the script, not the exact wire bytes)")
 	loadOTRKeys()
 
 	convTotal := m.N(320, 16000)
 	m.Cases("conv", convTotal, func(i int64, r *rand.Rand) { c47Conversation(m, i, r) })
 
+	np := len(allCrossPlans())
+	m.Cases("crossed-all", np, func(i int64, r *rand.Rand) { c47CrossedAll(m, i, r) })
+	m.Cases("crossed-random", m.N(120, 6000), func(i int64, r *rand.Rand) { c47CrossedRandom(m, i, r) })
 	m.Each("smp-seq", 32, func(i int64, r *rand.Rand) { c47SMPSeq(m, i, r) })
 	m.Each("smp-degenerate", 8, func(i int64, r *rand.Rand) { c47SMPDegenerate(m, i, r) })
 	m.Each("data-mutation", len(dataClasses)*m.N(1, 6), func(i int64, r *rand.Rand) { c47DataMutation(m, i, r) })
@@ -44,6 +47,8 @@ func TestC47(t *testing.T) {
 	m.Gate("smp_unequal_runs", m.N(60, 3000), "SMP runs with unequal secrets")
 	m.Gate("rehandshakes", m.N(40, 2000), "re-handshakes in an encrypted conversation")
 	m.Gate("conversations_ended", m.N(30, 1500), "End() observed by the peer")
+	m.Gate("crossed_all_cases", np, "every FIFO-preserving interleaving of 1..3 × 1..3 crossed data messages, three rounds with SMP and re-AKE in between")
+	m.Gate("crossed_rounds", m.N(300, 12000), "crossed exchanges with follow-ups delivered")
 	m.Gate("smp_seq_runs", 40, "two-run SMP sequences (all initiator/equality combinations)")
 	m.Gate("smp_degenerate_runs", 8, "SMP runs against a peer whose exponents are zero (unequal secrets)")
 	m.Gate("data_mutants_delivered", 3000, "every byte of every data-message class mutated")
